@@ -843,4 +843,229 @@ theorem finalA (H : Hyp a T) (R : Ptr → Rat) {M A : List Word} {La : Nat} {cA 
     rw [hAt] at this
     rw [hp, ← this]
 
+
+/-- **the final `RevealBefore` call** (`reveal_full`, if the preceding fragment's left state is full) and the assembly of
+the canonical description of `B ++ F` -/
+theorem finish_before (H : Hyp a T) (R : Ptr → Rat) {B F : List Word} {Lb : Nat} {cB : Chart} {pB pF : Rat}
+    (GB : FragC a T R B Lb cB pB) {Lk : Nat} {l : LeftSt} {acc : Rat} (r : State)
+    (I : PBw a T R F pF B.reverse cB.right.length Lk l acc) :
+    ∃ L' c', c'.left.pointers = cB.left.pointers ++
+        (if cB.left.full then (revealBefore T R cB.right cB.right.length true l r).2.1 else l).pointers ∧
+      FragC a T R (B ++ F) L' c' (pB + pF +
+        (if cB.left.full then acc + (revealBefore T R cB.right cB.right.length true l r).1 else acc)) := by
+  have hord : T.order = a.order := H.tf.order_eq
+  have hN2 := H.wf.order_ge
+  have sfB := GB.right_for
+  have hrev : (B ++ F).reverse = F.reverse ++ B.reverse := List.reverse_append
+  have hnb : cB.right.length ≤ B.reverse.length := sfB.len_le_h
+  by_cases hfB : cB.left.full = true
+  · -- `reveal_full`: everything still pending is finalised
+    simp only [hfB, if_true]
+    let P := B.reverse.take cB.right.length
+    have hPl : P.length = cB.right.length := by simp only [P, List.length_take]; omega
+    have C : LoopCtx a T F P [] Lk 0 := ⟨I.Lk_le, I.xl, by rw [hPl]; exact I.bound, Nat.le_refl _⟩
+    have I0 : InvL a F P [] 0 0 { nextUse := 0, backIn := ([] : List Rat).take 0 } := by
+      refine ⟨Nat.le_refl _, by rw [hPl]; show 0 + cB.right.length + 1 + 0 ≤ a.order; have := sfB.len_le_N; omega, by simp,
+        fun kk h1 h2 => by simp at h2; omega⟩
+    obtain ⟨Lw, s1, s2, s3, s4, s5, s6, s7, s8, s9⟩ :=
+      extendLoop_sem H R C cB.right.length 0 (by rw [hPl]; simp) (Nat.zero_le _) [] I0 false (fun hc => by cases hc)
+    have hLw : Lw = 0 := s3 rfl
+    have hadd : (cB.right.words.take cB.right.length).drop cB.right.length = [] :=
+      List.drop_eq_nil_of_le (by simp; exact Nat.min_le_left _ _)
+    have hbo : (cB.right.backoff.take cB.right.length).drop cB.right.length = [] :=
+      List.drop_eq_nil_of_le (by simp; exact Nat.min_le_left _ _)
+    have hptrs0 : l.pointers = ((List.range Lk).map (fun i => pre F i ++ P)).drop 0 := by rw [I.ptrs]; rfl
+    have hres : (revealBefore T R cB.right cB.right.length true l r).2.1.pointers = [] ∧
+        (revealBefore T R cB.right cB.right.length true l r).1 =
+          (extendLoop T R cB.right.length [] [] (((List.range Lk).map (fun i => pre F i ++ P)).drop 0) false).adjust +
+            ((extendLoop T R cB.right.length [] [] (((List.range Lk).map (fun i => pre F i ++ P)).drop 0) false).backIn.take
+              (extendLoop T R cB.right.length [] [] (((List.range Lk).map (fun i => pre F i ++ P)).drop 0) false).nextUse).sum * (if l.full then 1 else 0) := by
+      unfold revealBefore
+      dsimp only
+      rw [hadd, hbo, hptrs0]
+      cases hl : l.full <;> simp <;> grind
+    have htk : ([] : List Word).take 0 = [] := rfl
+    rw [htk] at s7 s8
+    have hnu0 : (extendLoop T R cB.right.length [] [] (((List.range Lk).map (fun i => pre F i ++ P)).drop 0) false).nextUse = 0 := by
+      have := s7.nu_le; omega
+    have hadj : (revealBefore T R cB.right cB.right.length true l r).1 = dsum (doneTerm a R F P []) 0 Lk := by
+      rw [hres.2, s8, hLw, hnu0]
+      simp [dsum] <;> grind
+    -- the total
+    have hsplit := specSeq_drop_split (a := a) F P Lk 0 (by have := I.Lk_le; omega)
+    simp only [Nat.zero_add, List.drop_zero] at hsplit
+    have hg0 : gm1 F 0 = [] := by simp [gm1]
+    rw [hg0, List.nil_append] at hsplit
+    have hd : dsum (doneTerm a R F P []) 0 Lk =
+        dsum (fun i => score a (gm1 F i ++ P) (F.getD i 0)) 0 Lk - psum R F P Lk := by
+      unfold psum
+      rw [← dsum_sub]
+      apply dsum_congr
+      intro j _ _
+      simp only [doneTerm, List.append_nil]
+    have htot : pF + (acc + (revealBefore T R cB.right cB.right.length true l r).1) = specSeq a B.reverse F := by
+      have hsc : pF + acc = psum R F P Lk + specSeq a (gm1 F Lk ++ P) (F.drop Lk) := I.score
+      have hdead : specSeq a (P ++ B.reverse.drop cB.right.length) F = specSeq a P F := by
+        apply specSeq_dead H
+        intro kk hk1 hk2
+        have : P ++ (B.reverse.drop cB.right.length).take kk = B.reverse.take (cB.right.length + kk) := by
+          simp only [P]; rw [List.take_add]
+        rw [this]
+        simp only [List.length_drop] at hk2
+        exact sfB.dead _ (by omega) (by omega)
+      have hPB : P ++ B.reverse.drop cB.right.length = B.reverse := List.take_append_drop _ _
+      rw [hPB] at hdead
+      rw [hdead, hsplit, hadj, hd]
+      grind
+    obtain ⟨sR, hsR1, hsR2⟩ := stateFor_exists H (B ++ F).reverse
+    refine ⟨Lb, { left := cB.left, right := sR }, by rw [hres.1]; simp, ⟨hsR1, hsR2, by simp; have := GB.L_le; omega, GB.L_lt, ?_, ?_, ?_,
+      (fun hc => by rw [hfB] at hc; cases hc), fun _ => (GB.closed hfB).append H F⟩⟩
+    · show cB.left.pointers = _
+      rw [GB.ptrs]
+      apply List.map_congr_left
+      intro i hi
+      have : i < Lb := by simpa using hi
+      rw [pre_append B F (by have := GB.L_le; omega)]
+    · intro i hi; rw [pre_append B F (by have := GB.L_le; omega)]; exact GB.ptr_xl i hi
+    · have : pB + pF + (acc + (revealBefore T R cB.right cB.right.length true l r).1) = pB + specSeq a B.reverse F := by
+        rw [← htot]; grind
+      show pB + pF + (acc + (revealBefore T R cB.right cB.right.length true l r).1) = _
+      rw [this, GB.prob_eq, restSum_append R B F Lb GB.L_le, List.take_append_of_le_length GB.L_le,
+        List.drop_append_of_le_length GB.L_le, specSeq_append]
+      have : (B.drop Lb).reverse ++ (B.take Lb).reverse = B.reverse := by
+        rw [← List.reverse_append, List.take_append_drop]
+      rw [this]; grind
+  · -- the preceding fragment is open: all its words were revealed
+    have hfB' : cB.left.full = false := by simpa using hfB
+    simp only [hfB', Bool.false_eq_true, if_false]
+    obtain ⟨hLb, hnbB⟩ := GB.open_ hfB'
+    have hP : B.reverse.take cB.right.length = B.reverse := List.take_of_length_le (by rw [hnbB]; simp)
+    have hpB : pB = restSum R B B.length := by
+      rw [GB.prob_eq, hLb, List.drop_eq_nil_of_le (Nat.le_refl _)]; simp only [specSeq]; grind
+    have hbound : B.length + Lk ≤ a.order - 1 := by have := I.bound; omega
+    -- the right state of the description
+    have hright : ∃ sR, StateFor a (B ++ F).reverse sR ∧ NormS sR ∧ (l.full = false → sR.length = (B ++ F).length) := by
+      by_cases hl : l.full = true
+      · obtain ⟨sR, h1, h2⟩ := stateFor_exists H (B ++ F).reverse
+        exact ⟨sR, h1, h2, fun hc => by rw [hl] at hc; cases hc⟩
+      · have o1 := I.open_w (by simpa using hl)
+        -- everything is in the left state: the fragment is short enough for a right state holding all its words
+        have hlen : (B ++ F).reverse.length ≤ a.order - 1 := by simp; have := I.bound; omega
+        refine ⟨{ length := (B ++ F).reverse.length, words := (B ++ F).reverse,
+                  backoff := (List.range (B ++ F).reverse.length).map (fun j => a.boW ((B ++ F).reverse.take (j+1))) },
+          ⟨Nat.le_refl _, hlen, by simp, by show List.take _ _ = _; rw [List.take_of_length_le (by simp)], fun kk h1 h2 => by
+            have h1' : (B ++ F).reverse.length < kk := h1
+            omega⟩, ⟨rfl, by simp⟩, fun _ => by simp; omega⟩
+    obtain ⟨sR, hsR1, hsR2, hsR3⟩ := hright
+    refine ⟨B.length + Lk, { left := { pointers := cB.left.pointers ++ l.pointers, full := l.full }, right := sR }, rfl,
+      ⟨hsR1, hsR2, by simp; have := I.Lk_le; omega, hbound, ?_, ?_, ?_, ?_, ?_⟩⟩
+    · show cB.left.pointers ++ l.pointers = _
+      rw [GB.ptrs, hLb, I.ptrs, hP]
+      exact ptrs_concat B F Lk I.Lk_le
+    · intro i hi
+      by_cases hlt : i < B.length
+      · rw [pre_append B F hlt]; exact GB.ptr_xl i (by omega)
+      · obtain ⟨i', rfl⟩ : ∃ i', i = B.length + i' := ⟨i - B.length, by omega⟩
+        rw [pre_concat B F i' (by have := I.Lk_le; omega)]
+        have := I.xl i' (by omega)
+        rwa [hP] at this
+    · have hsc : pF + acc = psum R F B.reverse Lk + specSeq a (gm1 F Lk ++ B.reverse) (F.drop Lk) := by
+        have := I.score; rwa [hP] at this
+      rw [restSum_concat R B F Lk I.Lk_le, take_append_len, List.reverse_append, hSum_eq_psum]
+      have : (B ++ F).drop (B.length + Lk) = F.drop Lk := by rw [List.drop_append]; simp
+      rw [this, hpB]
+      unfold gm1 at hsc
+      grind
+    · intro hc
+      exact ⟨by have := I.open_w hc; simp; omega, hsR3 hc⟩
+    · intro hc
+      have hcl := I.closed hc
+      rw [hP] at hcl
+      rcases hcl with ⟨h1, h2⟩ | ⟨h1, j, hj1, hj2, h3⟩ | ⟨h1, h2⟩
+      · left
+        exact ⟨by simp; omega, by rw [pre_concat B F Lk h1]; exact h2⟩
+      · right; left
+        refine ⟨by simp; omega, by simp only [List.length_reverse] at hj2; omega, j, hj1, by simp only [List.length_reverse] at hj2; simp; omega, ?_⟩
+        rw [hrev]; exact h3
+      · right; right
+        simp only [List.length_reverse] at h2
+        exact ⟨by simp; omega, by omega⟩
+
+
+
+theorem revealSteps_inv (H : Hyp a T) (R : Ptr → Rat) {B M A : List Word} {Lb La : Nat} {cB cA : Chart} {pB pA pM : Rat}
+    (GB : FragC a T R B Lb cB pB) (GA : FragC a T R A La cA pA) :
+    ∀ (steps : List Bool) (kb ka Lk : Nat) (l : LeftSt) (r : State) (acc : Rat),
+      kb ≤ cB.right.length → ka ≤ La → PT a T R M A pM B.reverse kb ka Lk l r acc →
+      ∃ Lk', (revealSteps T R cB cA steps (kb, ka, l, r, acc)).1 ≤ cB.right.length ∧
+        (revealSteps T R cB cA steps (kb, ka, l, r, acc)).2.1 ≤ La ∧
+        PT a T R M A pM B.reverse (revealSteps T R cB cA steps (kb, ka, l, r, acc)).1
+          (revealSteps T R cB cA steps (kb, ka, l, r, acc)).2.1 Lk'
+          (revealSteps T R cB cA steps (kb, ka, l, r, acc)).2.2.1
+          (revealSteps T R cB cA steps (kb, ka, l, r, acc)).2.2.2.1
+          (revealSteps T R cB cA steps (kb, ka, l, r, acc)).2.2.2.2 := by
+  have hlenA : cA.left.length = La := by simp [LeftSt.length, GA.ptrs]
+  have hnb : cB.right.length ≤ B.reverse.length := GB.right_for.len_le_h
+  intro steps
+  induction steps with
+  | nil => intro kb ka Lk l r acc h1 h2 I; exact ⟨Lk, h1, h2, I⟩
+  | cons b rest ih =>
+    intro kb ka Lk l r acc h1 h2 I
+    cases b with
+    | true =>
+      simp only [revealSteps]
+      by_cases hk : kb < cB.right.length
+      · simp only [hk, if_true]
+        obtain ⟨Lk', I'⟩ := revealBefore_stepT H R GB I hk
+        exact ih (kb+1) ka Lk' _ _ _ (by omega) h2 I'
+      · simp only [hk, if_false]
+        exact ih kb ka Lk l r acc h1 h2 I
+    | false =>
+      simp only [revealSteps, hlenA]
+      by_cases hk : ka < La
+      · simp only [hk, if_true]
+        obtain ⟨Lk', I'⟩ := revealAfter_stepT H R GA (by omega) I hk
+        exact ih kb (ka+1) Lk' _ _ _ h1 (by omega) I'
+      · simp only [hk, if_false]
+        exact ih kb ka Lk l r acc h1 h2 I
+
+/-- **the two-sided protocol**: `RevealBefore` and `RevealAfter` calls interleaved in any order (`steps`) until both sides
+are completely revealed, followed by the two final calls: the accumulated adjustment is the score of the whole minus
+the scores of the three parts, and the left pointers are those of the whole beyond the preceding fragment's. -/
+theorem revealBoth_frag (H : Hyp a T) (R : Ptr → Rat) {B M A : List Word} {Lb Lm La : Nat} {cB cM cA : Chart} {pB pM pA : Rat}
+    (GB : FragC a T R B Lb cB pB) (GM : FragC a T R M Lm cM pM) (GA : FragC a T R A La cA pA) (steps : List Bool)
+    (hall : (revealSteps T R cB cA steps (0, 0, cM.left, cM.right, 0)).1 = cB.right.length ∧
+            (revealSteps T R cB cA steps (0, 0, cM.left, cM.right, 0)).2.1 = cA.left.length) :
+    ∃ L' c', c'.left.pointers = cB.left.pointers ++ (revealBoth T R cB cM cA steps).1.pointers ∧
+      FragC a T R (B ++ (M ++ A)) L' c' (pB + (pM + pA) + (revealBoth T R cB cM cA steps).2.2) := by
+  have hlenA : cA.left.length = La := by simp [LeftSt.length, GA.ptrs]
+  have sfB := GB.right_for
+  have hnb : cB.right.length ≤ B.reverse.length := sfB.len_le_h
+  obtain ⟨Lk, _, _, I⟩ := revealSteps_inv H R GB GA (M := M) (pM := pM) steps 0 0 Lm cM.left cM.right 0 (Nat.zero_le _) (Nat.zero_le _)
+    (PT.init H R GM A B.reverse)
+  obtain ⟨hb, ha⟩ := hall
+  unfold revealBoth
+  generalize revealSteps T R cB cA steps (0, 0, cM.left, cM.right, 0) = st at I hb ha
+  obtain ⟨kb, ka, l, r, acc⟩ := st
+  simp only at I hb ha
+  subst hb
+  rw [hlenA] at ha
+  subst ha
+  have IA := finalA H R GA hnb (fun k h1 h2 => sfB.dead k h1 h2) I
+  rw [hlenA]
+  by_cases hfA : cA.left.full = true
+  · simp only [hfA, if_true] at IA ⊢
+    have fb := finish_before H R GB (revealAfter T R l r { pointers := cA.left.pointers, full := true } ka).2.2 IA
+    by_cases hfB : cB.left.full = true
+    · simp only [hfB, if_true] at fb ⊢; exact fb
+    · have hfB' : cB.left.full = false := by simpa using hfB
+      simp only [hfB', Bool.false_eq_true, if_false] at fb ⊢; exact fb
+  · have hfA' : cA.left.full = false := by simpa using hfA
+    simp only [hfA', Bool.false_eq_true, if_false] at IA ⊢
+    have fb := finish_before H R GB r IA
+    by_cases hfB : cB.left.full = true
+    · simp only [hfB, if_true] at fb ⊢; exact fb
+    · have hfB' : cB.left.full = false := by simpa using hfB
+      simp only [hfB', Bool.false_eq_true, if_false] at fb ⊢; exact fb
+
 end KV.Left
